@@ -109,6 +109,18 @@ hp_alloc_slots(size_t slots)
 	return (NULL);
 }
 
+#ifdef HP_X_CONSTBUF
+#define HP_X_ALLOC(s) malloc((HP_MAXN + 1) * sizeof(void *))
+#else
+#define HP_X_ALLOC(s) hp_alloc_slots(s)
+#endif
+#ifdef HP_X_POOL
+#define HP_X_POOLDECL hp_rec_t * pool_ = malloc(HP_MAXN * sizeof(hp_rec_t)); __CPROVER_assume(pool_ != NULL);
+#define HP_X_RECALLOC(k) (&pool_[k])
+#else
+#define HP_X_POOLDECL
+#define HP_X_RECALLOC(k) malloc(sizeof(hp_rec_t))
+#endif
 /*
  * HP_MK_LIST(L, n): an arbitrary well-formed pointer list of n <= HP_MAXN elements in an allocation of
  * n*8 .. HP_MAXALLOC bytes; every element points to one of HP_MAXN record objects R[0..HP_MAXN) with arbitrary
@@ -120,13 +132,14 @@ hp_alloc_slots(size_t slots)
 	size_t L##_alloc = L##_slots * sizeof(void *); \
 	struct elasticarray * L##_ea = malloc(sizeof(struct elasticarray)); \
 	__CPROVER_assume(L##_ea != NULL); \
-	void ** L##_buf = hp_alloc_slots(L##_slots); \
+	void ** L##_buf = HP_X_ALLOC(L##_slots); \
 	__CPROVER_assume(L##_buf != NULL); \
 	L##_ea->size = n * sizeof(void *); L##_ea->alloc = L##_alloc; \
 	if (L##_alloc == 0) { free(L##_buf); L##_ea->buf = NULL; } else L##_ea->buf = L##_buf; \
 	hp_rec_t * R[HP_MAXN]; \
+	HP_X_POOLDECL \
 	for (size_t k_ = 0; k_ < HP_MAXN; k_++) { \
-		R[k_] = malloc(sizeof(hp_rec_t)); \
+		R[k_] = HP_X_RECALLOC(k_); \
 		__CPROVER_assume(R[k_] != NULL); \
 	} \
 	for (size_t k_ = 0; k_ < HP_MAXN; k_++) { \
